@@ -1,7 +1,7 @@
 ----------------------------- MODULE Trace_Expr -----------------------------
 (* Validates recorded #expr evaluations of the real code against Expr.       *)
 (* TRACE_FILE: {"events": [{"toks": [...], "obs": {"kind": "val"|"err"|"exc",*)
-(*              "n": .., "d": .., "close": bool}}, ...]}                     *)
+(*              "n": .., "d": .., "close": bool, "syntax": bool}}, ...]}     *)
 (* obs.n/obs.d is the fraction with small denominator nearest to the number  *)
 (* the code printed, close = it is within 1e-9 of what was printed.          *)
 (* One event is consumed per step; mismatches are collected, not blocking.   *)
@@ -13,33 +13,37 @@ AsIsDev == {"NoExceptionBarrier", "UnaryAfterE", "TrailingTokensIgnored",
 
 Events == JsonDeserialize(IOEnv.TRACE_FILE).events
 
-VARIABLES l, bad, drift
-tvars == <<l, bad, drift>>
+VARIABLES l, bad, drift, excerr
+tvars == <<l, bad, drift, excerr>>
 
-\* "bad": the statement is contradicted (a value was demanded and something
-\* else came back / an exception escaped); "drift": class differs where the
-\* model demands an in-band error
+\* "bad": a value was demanded and something else came back (C18);
+\* "excerr": an in-band error was demanded and an exception escaped (C05);
+\* "drift": a value came back where the model demands an in-band error
 Judge(e) ==
   LET x == ExprOutcome(e.toks) IN
-  IF e.obs.kind = "exc" THEN (IF x.kind = "exc" THEN "ok" ELSE "bad")
+  IF e.obs.kind = "exc" THEN (IF x.kind = "exc" THEN "ok" ELSE IF x.kind = "err" THEN "excerr" ELSE "bad")
   ELSE IF x.kind = "exc" THEN "drift"
   ELSE IF x.kind = "val" THEN
-       (IF e.obs.kind # "val" THEN "bad"
+       (IF e.obs.kind # "val"
+        \* an inexactly known operand may legitimately be a zero divisor / out of a
+        \* domain: an arithmetic error is then no contradiction, a syntax error is
+        THEN (IF x.ex \/ e.obs.syntax THEN "bad" ELSE "drift")
         ELSE IF x.ex /\ ~(e.obs.close /\ e.obs.n = x.n /\ e.obs.d = x.d) THEN "bad"
         ELSE "ok")
   ELSE (IF e.obs.kind = "val" THEN "drift" ELSE "ok")
 
-TInit == l = 1 /\ bad = <<>> /\ drift = <<>>
+TInit == l = 1 /\ bad = <<>> /\ drift = <<>> /\ excerr = <<>>
 TNext ==
   /\ l <= Len(Events)
   /\ LET j == Judge(Events[l])
          rec == [i |-> l, expected |-> Proj(ExprOutcome(Events[l].toks))] IN
      /\ bad' = IF j = "bad" THEN Append(bad, rec) ELSE bad
      /\ drift' = IF j = "drift" THEN Append(drift, rec) ELSE drift
+     /\ excerr' = IF j = "excerr" THEN Append(excerr, rec) ELSE excerr
   /\ l' = l + 1
 TSpec == TInit /\ [][TNext]_tvars
 
 Verdict == (l = Len(Events) + 1) =>
-             PrintT(<<"VERDICT", ToJson([consumed |-> l - 1, bad |-> bad, drift |-> drift])>>)
+             PrintT(<<"VERDICT", ToJson([consumed |-> l - 1, bad |-> bad, drift |-> drift, excerr |-> excerr])>>)
 Accepted == TLCGet("stats").diameter = Len(Events) + 1
 =============================================================================
